@@ -127,10 +127,16 @@ impl ToTokens for FromMetaImpl<'_> {
                             0 => ::darling::export::Err(::darling::Error::too_few_items(1)),
                             1 => {
                                 if let ::darling::export::NestedMeta::Meta(ref __nested) = __outer[0] {
-                                    match ::darling::util::path_to_string(__nested.path()).as_ref() {
-                                        #(#data_variants)*
-                                        __other => ::darling::export::Err(::darling::Error::#unknown_variant_err.with_span(__nested))
-                                    }
+                                    // The item that selected the variant is the item at fault for
+                                    // whatever the variant's arm reports, so an error that has no
+                                    // more specific span gets the span of that item. The arms leave
+                                    // early with `?`, hence the closure.
+                                    (|| -> ::darling::Result<Self> {
+                                        match ::darling::util::path_to_string(__nested.path()).as_ref() {
+                                            #(#data_variants)*
+                                            __other => ::darling::export::Err(::darling::Error::#unknown_variant_err.with_span(__nested))
+                                        }
+                                    })().map_err(|e| e.with_span(__nested))
                                 } else {
                                     ::darling::export::Err(::darling::Error::unsupported_format("literal"))
                                 }
